@@ -50,6 +50,13 @@ static void *sweep32(void *arg)
 	return NULL;
 }
 
+struct crcmt { uint8_t *base, *p; size_t len; long calls, wrong; uint32_t want; };
+static void *crcmt_main(void *v)
+{
+	struct crcmt *c = v;
+	for (long i = 0; i < c->calls; i++) if (mtbl_crc32c(c->p, c->len) != c->want) c->wrong++;
+	return NULL;
+}
 int ops_codec(char **args, int na)
 {
 	const char *op = args[0];
@@ -152,6 +159,28 @@ int ops_codec(char **args, int na)
 		if (my_crc32c_sse42_supported()) printf("big api=%lu slicing=%lu sse42=%lu%s\n", (unsigned long)a, (unsigned long)sl, (unsigned long)my_crc32c_sse42(p, len), ref);
 		else printf("big api=%lu slicing=%lu sse42=unsupported%s\n", (unsigned long)a, (unsigned long)sl, ref);
 		munmap(base0, total); close(fd); unlink(path);
+		return 0;
+	}
+	if (!strcmp(op, "crc.mt") && na == 4) {
+		/* crc.mt <threads> <len> <calls>: mtbl_crc32c is a pure function — several threads checksum their own (misaligned,
+		 * differently filled) buffers at the same time; every result must be the bytewise reference of that buffer.
+		 * reply: mt ok calls=<n> | mt wrong=<k> first=thread<i> */
+		int nt = atoi(args[1]); size_t len = strtoull(args[2], NULL, 10); long calls = atol(args[3]);
+		if (nt < 1 || nt > 16) return -1;
+		struct crcmt *cx = calloc((size_t)nt, sizeof *cx); pthread_t th[16];
+		static uint32_t tab[256]; if (!tab[1]) for (uint32_t i = 0; i < 256; i++) { uint32_t c = i; for (int k = 0; k < 8; k++) c = (c & 1) ? (c >> 1) ^ 0x82F63B78u : c >> 1; tab[i] = c; }
+		for (int t = 0; t < nt; t++) {
+			cx[t].base = malloc(len + 16); cx[t].p = cx[t].base + 1 + (t % 7); cx[t].len = len; cx[t].calls = calls;
+			uint64_t x = 88172645463325252ull + (uint64_t)t * 7919;
+			for (size_t i = 0; i < len; i++) { x ^= x << 13; x ^= x >> 7; x ^= x << 17; cx[t].p[i] = (uint8_t)x; }
+			uint32_t c = 0xffffffffu; for (size_t i = 0; i < len; i++) c = tab[(c ^ cx[t].p[i]) & 0xff] ^ (c >> 8);
+			cx[t].want = c ^ 0xffffffffu;
+		}
+		for (int t = 0; t < nt; t++) pthread_create(&th[t], NULL, crcmt_main, &cx[t]);
+		long wrong = 0; int first = -1;
+		for (int t = 0; t < nt; t++) { pthread_join(th[t], NULL); if (cx[t].wrong) { wrong += cx[t].wrong; if (first < 0) first = t; } free(cx[t].base); }
+		free(cx);
+		if (wrong) printf("mt wrong=%ld first=thread%d\n", wrong, first); else printf("mt ok calls=%ld\n", calls * nt);
 		return 0;
 	}
 	if (!strcmp(op, "crc.cpu")) { puts(my_crc32c_sse42_supported() ? "sse42 1" : "sse42 0"); return 0; }
